@@ -191,6 +191,45 @@ func (h *H) confirmN(c *tcase, big bool, n int, pred func(outcome) bool) bool {
 	return true
 }
 
+// batchCases runs cases in a process of their own (several per process) and judges them: for
+// inputs that may make a goroutine started by the decoder panic, which would take the whole
+// process down.
+func (h *H) batchCases(cases []*tcase) {
+	outs := runBatch(h.e.Dir, cases)
+	for i, c := range cases {
+		o := outs[i]
+		if o.Class == "crash" {
+			// once more, alone, twice: a process that dies in this case every time
+			if h.perSig["panic"] >= 2 {
+				h.perSig["panic"]++ // confirmed twice already in this run: count the rest
+			} else if h.confirmN(c, false, 2, func(r outcome) bool { return r.Class == "crash" }) {
+				h.fail("panic", "the decoding process died (a panic outside the calling goroutine): "+firstLine(o.Err), c, o)
+			}
+			h.e.Count(true, c.Hex, "T:"+shortName[c.Names[len(c.Names)-1]]+":died")
+			continue
+		}
+		if o.Class == "timeout" || o.Class == "hang" {
+			if h.confirmN(c, false, 3, func(r outcome) bool { return r.Class == "timeout" || r.Class == "hang" }) {
+				h.fail("timeout", fmt.Sprintf("decoding %d bytes used %v of CPU time without finishing", len(c.Body()), time.Duration(o.CPUNS)), c, o)
+			}
+			continue
+		}
+		h.judge(c, false, o)
+	}
+}
+
+func firstLine(s string) string {
+	for _, l := range strings.Split(s, "\n") {
+		if strings.HasPrefix(l, "panic:") || strings.HasPrefix(l, "fatal error:") {
+			return l
+		}
+	}
+	if i := strings.IndexByte(s, '\n'); i >= 0 {
+		return s[:i]
+	}
+	return s
+}
+
 // triple runs the oracle on one case; the outcome is returned for the
 // correspondence part.  ok=false: the case could not be completed.
 func (h *H) triple(c *tcase, big bool) (outcome, bool) {
@@ -241,6 +280,12 @@ func (h *H) triple(c *tcase, big bool) (outcome, bool) {
 			return o, false
 		}
 	}
+	return h.judge(c, big, o)
+}
+
+// judge applies the oracle to the outcome of a case.
+func (h *H) judge(c *tcase, big bool, o outcome) (outcome, bool) {
+	in := int64(len(c.Body()))
 	first := ""
 	if len(c.Names) > 0 {
 		first = shortName[c.Names[len(c.Names)-1]]
@@ -1125,6 +1170,10 @@ func (h *H) one(name string, p parm, body []byte, note string) *tcase {
 }
 
 func main() {
+	if len(os.Args) > 2 && os.Args[1] == "-batch" {
+		batchMain(os.Args[2])
+		return
+	}
 	if len(os.Args) > 2 && os.Args[1] == "-replay" {
 		replayMain(os.Args[2], len(os.Args) > 3 && os.Args[3] == "-big")
 		return
@@ -1447,6 +1496,7 @@ func main() {
 	h.frameCases()
 	h.behindCompression()
 	h.jbig2StructCases()
+	h.jpegStructCases()
 	phase("frame kinds + budget identity")
 	// headers whose claimed geometry straddles the stream budget, for every component layout
 	h.headerSweep()
